@@ -36,6 +36,10 @@ FORMS = {
     "value-attr": ("clocked", "c05v{cellno}.value = {src}\n{o} <<= c05v{cellno}", "c05v{cellno} = Variable[{T}](name='c05v{cellno}')"),
     "init-signal": ("clocked", "c05s{cellno} = Signal[{T}]({src})\n{o} <<= c05s{cellno}", ""),
     "init-variable": ("clocked", "c05w{cellno} = Variable[{T}]({src})\n{o} <<= c05w{cellno}", ""),
+    # arrays: element-wise initial values and element targets follow the element type's rules
+    "array-init": ("clocked", "c05a{cellno} = Variable[Array[{T}, 2]]([{src}, {src}])\n{o} <<= c05a{cellno}[1]", ""),
+    "array-elem-value": ("clocked", "c05e{cellno}[1] @= {src}\n{o} <<= c05e{cellno}[1]", "c05e{cellno} = Variable[Array[{T}, 2]](name='c05e{cellno}')"),
+    "array-elem-next": ("clocked2", "c05g{cellno}[0] <<= {src}\n{o} <<= c05g{cellno}[0]", "c05g{cellno} = Signal[Array[{T}, 2]](name='c05g{cellno}')"),
     # delayed_init: the initialisation behaves like a signal assignment (value visible one clock later)
     "init-signal-delayed": ("clocked2", "c05d{cellno} = Signal[{T}]({src}, delayed_init=True)\n{o} <<= c05d{cellno}", ""),
 }
@@ -57,7 +61,7 @@ def pair_cells(widths, forms):
             loc = local.replace("{T}", T)
             key = f"{fname}|{ts}->{tt}"
             extra = dict(local=loc, out_default="Null" if fname.startswith("push") else "",
-                         nonlocals=("c05v{cellno}",) if fname.startswith("value") else ())
+                         nonlocals=("c05v{cellno}",) if fname.startswith("value") else (("c05e{cellno}",) if fname == "array-elem-value" else ()))
             if conv is None:
                 reject.append((ctx, Cell(key, ins, tt, b, lambda P, a: a, **extra)))
             else:
